@@ -332,7 +332,7 @@ Settle(s) == Drain(s, 12)
 -----------------------------------------------------------------------------
 (* ---- timers [handleTimerElapsed] ---------------------------------------- *)
 
-TimerOf(s) == IF s.stopped \/ s.pan # "" THEN "none"
+TimerOf(s) == IF s.stopped \/ s.pan # "" \/ s.sh > MaxH THEN "none"
               ELSE CASE s.step = "AP" -> "Proposal" [] s.step = "PVD" -> "PrevoteDelay"
                      [] s.step = "PCD" -> "PrecommitDelay" [] s.step = "CW" -> "CommitWait" [] OTHER -> "none"
 
@@ -371,9 +371,14 @@ Obs(s, A) == [mh |-> MH(s), mr |-> s.mr, chain |-> s.chain, sh |-> s.sh, sr |-> 
 \* Reduction: what can no longer influence anything is dropped from the state (the mirror never looks at
 \* a round it left [FindView: Orphaned], the state machine only at the view of the round it is in)
 SMNeedsView(s) == s.step \in {"AP", "APV", "PVD", "APC", "PCD"} \/ (s.step \in {"CW", "AF"} /\ ~s.finReq)
-Alive(s, m) == \/ (m.h = MH(s) /\ m.r \in {s.mr, s.mr + 1} /\ MH(s) <= MaxH)
-               \/ (m.h = s.sh /\ m.r = s.sr /\ SMNeedsView(s) /\ ~s.stopped)
-Prune(s) == [s EXCEPT !.K = {m \in @ : Alive(s, m)},
+\* prevotes are looked at only until the precommit decision of the round has been asked for (a restart
+\* re-derives the step from the whole view, so nothing is dropped while restarts remain)
+PastPrevotes(s, m, left) == m.k = "pv" /\ left = 0 /\ m.h = s.sh /\ m.r = s.sr /\ s.step \in {"APC", "PCD", "CW", "AF"}
+Alive(s, m, left) ==
+   /\ ~PastPrevotes(s, m, left)
+   /\ \/ (m.h = MH(s) /\ m.r \in {s.mr, s.mr + 1} /\ MH(s) <= MaxH)
+      \/ (m.h = s.sh /\ m.r = s.sr /\ SMNeedsView(s) /\ ~s.stopped /\ s.sh <= MaxH)
+Prune(s, left) == [s EXCEPT !.K = {m \in @ : Alive(s, m, left)},
                       !.acts = {a \in @ : a.h = s.sh /\ a.r = s.sr /\ s.sh <= MaxH},
                       !.lockV = IF s.sh > MaxH THEN "none" ELSE @, !.lockR = IF s.sh > MaxH THEN -1 ELSE @,
                       !.lockH = IF s.sh > MaxH THEN s.sh ELSE @,
@@ -387,7 +392,7 @@ Bounded(s) == s.mr <= MaxR /\ s.sr <= MaxR /\ MH(s) <= MaxH + 1 /\ s.sh <= MaxH 
 Finish(n, s2, rec) ==
   /\ s2.pan = ""
   /\ Bounded(s2)
-  /\ node' = [node EXCEPT ![n] = Prune(s2)]
+  /\ node' = [node EXCEPT ![n] = Prune(s2, MaxRestarts - restarts')]
   /\ sent' = {m \in sent \cup s2.out : StillWanted(node', m)}
   /\ gsent' = gsent \cup s2.out
   /\ gacts' = [gacts EXCEPT ![n] = @ \cup s2.acts]
@@ -406,13 +411,18 @@ Soup == sent \cup ByzMsgs
 OnePerSet(s, S) == ByzOne => \A m \in S : (m.s \in Byz /\ m.k # "prop") =>
                       ~\E x \in (s.K \cup S) \ {m} : x.s = m.s /\ x.k = m.k /\ x.h = m.h /\ x.r = m.r
 
-Levels == {Min, Maj, Total, Maj - WeakMirror, Maj - WeakSM}
-\* the threshold indicators of one (kind, round) slice of a message set
-Ind(X, k, h, r) ==
+\* the comparisons the code makes on one (kind, round) slice of a message set; d = 0 for the voting round,
+\* 1 for the round after it [handle*ViewUpdate, checkVotingPrecommitViewShift, check*ViewShift of the next round]
+Ind(X, k, h, r, d) ==
   LET V == {m \in X : m.h = h /\ m.r = r}
   IN IF k = "prop" THEN <<PHs(V), {}>>
-     ELSE <<{<<t, L>> \in Targets \X Levels : PowT(V, k, t) >= L}, {L \in Levels : TotalK(V, k) >= L}>>
-EachNeeded(s, S) == \A m \in S : Ind(s.K \cup S, m.k, m.h, m.r) # Ind(s.K \cup (S \ {m}), m.k, m.h, m.r)
+     ELSE IF d = 1 THEN <<{t \in Targets : k = "pc" /\ PowT(V, k, t) >= Maj}, {L \in {Min} : TotalK(V, k) >= L}>>
+     ELSE IF k = "pv" THEN <<{t \in Targets : PowT(V, k, t) >= Maj}, {L \in {Maj} : TotalK(V, k) >= L}>>
+     ELSE <<{<<t, L>> \in Targets \X {Maj, Maj - WeakMirror, Maj - WeakSM} : PowT(V, k, t) >= L}
+             \cup {<<Nil, 0>> : x \in {y \in V : AnyTarget /\ y.k = "pc" /\ y.v # Nil}},
+            {L \in {Min, Maj, Maj - WeakSM, Total} : TotalK(V, k) >= L}
+             \cup {100 + CommitPow(V) : x \in {1} \cap (IF AnyTarget THEN {1} ELSE {})}>>
+EachNeeded(s, S) == \A m \in S : Ind(s.K \cup S, m.k, m.h, m.r, m.r - s.mr) # Ind(s.K \cup (S \ {m}), m.k, m.h, m.r, m.r - s.mr)
 
 Deliverable(s, n) == {m \in Soup : m \notin s.K /\ m.s # n /\ Relevant(s, m)}
 SmallSets(X) == {S \in SUBSET X : Cardinality(S) \in 1..3}
@@ -435,15 +445,16 @@ Feed(s, S, order) ==
 
 Deliver(n, S) ==
   /\ MH(node[n]) <= MaxH
+  /\ UNCHANGED restarts
   /\ LET f == Feed(node[n], S, <<>>) IN
        /\ Ctl(f.s) # Ctl(node[n])
        /\ Finish(n, f.s, [op |-> "deliver", n |-> n, ms |-> f.order, exp |-> <<>>])
-  /\ UNCHANGED restarts
 
 Timeout(n) ==
   /\ TimerOf(node[n]) # "none"
-  /\ Finish(n, Settle(Elapse(node[n])), [op |-> "timeout", n |-> n, ms |-> <<>>, exp |-> <<>>])
+  /\ ~(node[n].step = "CW" /\ node[n].sh = MaxH /\ node[n].finCur)     \* bound: nothing is explored beyond MaxH
   /\ UNCHANGED restarts
+  /\ Finish(n, Settle(Elapse(node[n])), [op |-> "timeout", n |-> n, ms |-> <<>>, exp |-> <<>>])
 
 Restart(n) ==
   /\ restarts < MaxRestarts
